@@ -1,6 +1,6 @@
 // replay / bounded stand-in driver (appended to acts/src/scheduler/tests/message.rs of a scratch copy): property C08.
 // For every task the client sees at most one `created` and at most one terminal message, the terminal one last, and a task whose
-// error is taken by its own catch reports only its eventual ending.  9 workflows (the last one scripted: a step closed by a back while a child is open, the child ends later) (+ every ended workflow / step / interrupt act has exactly one terminal message with its final state): plain act, two acts in sequence, step catch with
+// error is taken by its own catch reports only its eventual ending.  10 workflows (one with an act pushed without an id; the last one scripted: a step closed by a back while a child is open, the child ends later) (+ every ended workflow / step / interrupt act has exactly one terminal message with its final state): plain act, two acts in sequence, step catch with
 // steps, step catch without steps, act catch without steps, step with a false condition.
 #[tokio::test]
 async fn verif_replay_hist_message_stream() {
@@ -20,6 +20,8 @@ async fn verif_replay_hist_message_stream() {
             .with_catch(|c| c.with_step(|s| s.with_id("cs1").with_act(Act::irq(|a| a.with_key("err2")))))))),
         ("step with a false condition is skipped", Workflow::new().with_id("v_m6").with_step(|s| s.with_id("step1").with_if("false").with_act(Act::irq(|a| a.with_key("ok1"))))
             .with_step(|s| s.with_id("step2").with_act(Act::irq(|a| a.with_key("ok2"))))),
+        // an act pushed by the client WITHOUT an id (its node gets a generated id): its messages must still name the node of their task
+        ("an act pushed without an id", Workflow::new().with_id("v_m10").with_step(|s| s.with_id("step1").with_act(Act::irq(|a| a.with_key("hold_p"))))),
         // a task ends while one of its children is still open, and that child ends later: back from one of two parallel branches closes the step that
         // holds them; the act of the other branch is completed afterwards (scripted below: the `hold_` acts are answered by the script)
         ("back from one of two parallel branches, then the act of the other branch is completed", Workflow::new().with_id("v_m9")
@@ -50,6 +52,16 @@ async fn verif_replay_hist_message_stream() {
             }
         });
         engine.runtime().launch(&proc);
+        if name.starts_with("an act pushed without an id") {
+            let nth = |k: &'static str, n: usize| { let held = held.clone(); async move { for _ in 0..200 { if let Some(t) = held.lock().unwrap().iter().filter(|(key, _)| key == k).map(|(_, tid)| tid.clone()).nth(n) { return Some(t); } tokio::time::sleep(std::time::Duration::from_millis(25)).await; } None } };
+            if let Some(hp) = nth("hold_p", 0).await {
+                let step_tid = proc.task_by_nid("step1").first().map(|t| t.id.clone()).unwrap_or_default();
+                let r = engine.executor().act().push(&proc.id(), &step_tid, &Vars::new().with("uses", "acts.core.irq").with("key", "ok_pushed"));
+                if r.is_err() { bad.push(format!("REPLAY-FAIL [{name}] the push is refused: {r:?}")); }
+                tokio::time::sleep(std::time::Duration::from_millis(300)).await;
+                let _ = engine.executor().act().complete(&proc.id(), &hp, &Vars::new());
+            } else { bad.push(format!("REPLAY-FAIL [{name}] the act did not open")); }
+        }
         if name.starts_with("back from one of two parallel branches") {
             // the n-th `created` message with that key (its task id), waited for
             let nth = |k: &'static str, n: usize| { let held = held.clone(); async move { for _ in 0..200 { if let Some(t) = held.lock().unwrap().iter().filter(|(key, _)| key == k).map(|(_, tid)| tid.clone()).nth(n) { return Some(t); } tokio::time::sleep(std::time::Duration::from_millis(25)).await; } None } };
@@ -70,6 +82,10 @@ async fn verif_replay_hist_message_stream() {
         let mut per: std::collections::BTreeMap<String, (String, Vec<String>)> = std::collections::BTreeMap::new();
         for (tid, nid, st) in msgs.iter() { per.entry(tid.clone()).or_insert((nid.clone(), Vec::new())).1.push(st.clone()); }
         if !proc.state().is_completed() { bad.push(format!("REPLAY-FAIL [{name}] the process did not finish ({})", proc.state())); }
+        // "every message carries the ... node id ... of the task it describes"
+        for (tid, (nid, _)) in per.iter() {
+            if let Some(t) = proc.task(tid) { if t.node().id() != nid.as_str() { bad.push(format!("REPLAY-FAIL [{name}] the messages of task {tid} carry node id `{nid}`, the task runs node `{}`", t.node().id())); } }
+        }
         for (_tid, (nid, sts)) in per.iter() {
             let created = sts.iter().filter(|s| s.as_str() == "created").count();
             let terminal: Vec<&String> = sts.iter().filter(|s| s.as_str() != "created" && s.as_str() != "none").collect();
